@@ -26,6 +26,7 @@ import (
 	"fmt"
 	"net/http"
 	"strings"
+	"sync"
 
 	jrpc "github.com/AdamSLevy/jsonrpc2/v13"
 	"github.com/pegnet/pegnetd/config"
@@ -44,6 +45,12 @@ var srv http.Server
 type APIServer struct {
 	Node   *node.Pegnetd
 	Config *viper.Viper
+
+	// avgNode carries the API's own rolling average cache. The sync loop prices
+	// conversions from the cache held by Node, so requests must never touch
+	// that one; avgMu serializes the concurrent handlers.
+	avgMu   sync.Mutex
+	avgNode *node.Pegnetd
 }
 
 func NewAPIServer(conf *viper.Viper, n *node.Pegnetd) *APIServer {
